@@ -5,7 +5,7 @@ composing C13 (routing), C15 (placement, quotas), C16 (tenant keys), C17 (fan-ou
 (`KInv`, `OpIn`, `SameSet`, `Inv`, `Rel`, `StepOK` …) is defined in `Lemmas.lean` / `Refine.lean`.
 Notes: notes/ClusterCompose.md.
 -/
-import SemaModel.ClusterCompose.Isolation
+import SemaModel.ClusterCompose.Sync
 namespace Sema.ClusterCompose
 open Sema List
 
@@ -101,9 +101,9 @@ theorem Cluster_refines_limits (cfg : Cfg) (r : Bytes → Name) {c : Cluster} {m
 /-! ### non-vacuity: three servers, a hand-made hash without ties, two tenants -/
 
 private def b (n : Nat) : Bytes := [BitVec.ofNat 8 n]
-/-- score of `key ++ server` = sum of all bytes mod 3: for one key the three one-byte server names
-1, 2, 3 get three different scores, and different keys have different owners -/
-def exHash : Bytes → Nat := fun x => (x.map (·.toNat)).sum % 3
+/-- score of `key ++ server` = sum of all bytes mod 5: for one key the one-byte server names
+1, 2, 3, 4 get different scores, and different keys have different owners -/
+def exHash : Bytes → Nat := fun x => (x.map (·.toNat)).sum % 5
 def exS : List Name := [b 1, b 2, b 3]
 /-- node 1 lists the servers in order, node 2 rotated, node 3 in another order with a repetition -/
 def exServers (n : Name) : List Name := if n = b 1 then [b 1, b 2, b 3] else if n = b 2 then [b 3, b 1, b 2] else [b 2, b 3, b 1, b 1]
@@ -116,45 +116,47 @@ theorem exMk_inj : ∀ i j, exMk i = exMk j → i = j := by
   intro i j h
   have := congrArg String.length h
   simpa [exMk] using this
-def uA : Bytes := b 67
-def uB : Bytes := b 66
+def uA : Bytes := b 68
+def uB : Bytes := b 67
+def uC : Bytes := b 66
 def cX : Bytes := [120#8, 121#8, 122#8]
 /-- A creates `xyz`, inserts three points (two shards are created: the count limit is 2), B creates a
-collection of the same name, A updates one point and a missing one, searches, deletes a point -/
+collection of the same name, A updates one point and a missing one, searches, deletes a point, reads
+the collection; C creates a collection -/
 def exHist (e1 e2 e3 : Name) : List Req :=
   [⟨e1, uA, .create cX 10 2⟩, ⟨e2, uA, .insert cX [(3, 30), (1, 10), (2, 20)] exMk⟩, ⟨e3, uB, .create cX 10 2⟩,
-   ⟨e1, uA, .update cX [(2, 21), (9, 90)]⟩, ⟨e2, uA, .search cX 0 2 0⟩, ⟨e3, uA, .delete cX [1]⟩, ⟨e1, uA, .get cX⟩]
+   ⟨e1, uA, .update cX [(2, 21), (9, 90)]⟩, ⟨e2, uA, .search cX 0 2 0⟩, ⟨e3, uA, .delete cX [1]⟩, ⟨e1, uA, .get cX⟩, ⟨e2, uC, .create cX 5 1⟩]
 
 -- the routed keys get no ties, the lists have the members of exS
-example : ∀ key ∈ [uA, uB, sidKey "z", sidKey "zz", sidKey "zzz"], C13.NoTies exHash key exS := by decide
+example : ∀ key ∈ [uA, uB, uC, sidKey "z", sidKey "zz", sidKey "zzz"], C13.NoTies exHash key (exS ++ [b 4]) := by decide
 example : ∀ n ∈ exS, ∀ a, a ∈ exServers n ↔ a ∈ exS := by
   intro n hn a
   have : ∀ n ∈ exS, (exServers n).all (fun a => exS.contains a) = true ∧ exS.all (fun a => (exServers n).contains a) = true := by decide
   obtain ⟨h1, h2⟩ := this n hn
   simp only [all_eq_true, contains_iff_mem] at h1 h2
   exact ⟨h1 a, h2 a⟩
--- the owners differ: user A at server 2, user B at server 3, the two shards at servers 1 and 2
-example : (routeOf exHash exS uA, routeOf exHash exS uB, routeOf exHash exS (sidKey "z"), routeOf exHash exS (sidKey "zz")) =
-    (b 2, b 3, b 1, b 2) := by decide
+-- the owners differ: user A at server 2, B at server 3, C at server 1, the two shards at servers 3 and 1
+example : (routeOf exHash exS uA, routeOf exHash exS uB, routeOf exHash exS uC, routeOf exHash exS (sidKey "z"), routeOf exHash exS (sidKey "zz")) =
+    (b 2, b 3, b 1, b 3, b 1) := by decide
 -- the responses (through nodes 1, 2, 3) …
 example : (run exHash exCfg exServers Cluster.empty (exHist (b 1) (b 2) (b 3))).2 =
-    [.ok, .inserted [], .ok, .failed [(9, .notFound)], .hits (some [⟨3, 30, []⟩, ⟨2, 21, []⟩]), .failed [], .info ["z", "zz"] [1, 1]] := by decide
+    [.ok, .inserted [], .ok, .failed [(9, .notFound)], .hits (some [⟨3, 30, []⟩, ⟨2, 21, []⟩]), .failed [], .info ["z", "zz"] [1, 1], .ok] := by decide
 -- … are the same through any other choice of entry nodes, and so is the state (read at every server)
 example : (run exHash exCfg exServers Cluster.empty (exHist (b 3) (b 3) (b 1))).2 =
     (run exHash exCfg exServers Cluster.empty (exHist (b 1) (b 2) (b 3))).2 := by decide
 example : ∀ n ∈ exS, ∀ sid ∈ ["z", "zz"],
     (run exHash exCfg exServers Cluster.empty (exHist (b 3) (b 3) (b 1))).1.sh n ⟨uA, cX, sid⟩ =
     (run exHash exCfg exServers Cluster.empty (exHist (b 1) (b 2) (b 3))).1.sh n ⟨uA, cX, sid⟩ := by decide
--- where things ended up: A's record at server 2, shard "z" = {2} at server 1, shard "zz" = {3} at server 2, nothing elsewhere
+-- where things ended up: A's record at server 2 (only), shard "z" = {2} at server 3, shard "zz" = {3} at server 1, nothing elsewhere
 example : let c := (run exHash exCfg exServers Cluster.empty (exHist (b 1) (b 2) (b 3))).1
-    dbGet (c.db (b 2)) (C16.key uA cX) = some ⟨uA, cX, ["z", "zz"], 10⟩ ∧ dbGet (c.db (b 3)) (C16.key uB cX) = some ⟨uB, cX, [], 10⟩ ∧
-    c.db (b 1) = [] ∧
-    c.sh (b 1) ⟨uA, cX, "z"⟩ = some [(2, 21)] ∧ c.sh (b 2) ⟨uA, cX, "zz"⟩ = some [(3, 30)] ∧
-    c.sh (b 2) ⟨uA, cX, "z"⟩ = none ∧ c.sh (b 3) ⟨uA, cX, "z"⟩ = none ∧ c.sh (b 1) ⟨uA, cX, "zz"⟩ = none ∧ c.sh (b 3) ⟨uA, cX, "zz"⟩ = none := by decide
+    c.db (b 2) = [(C16.key uA cX, ⟨uA, cX, ["z", "zz"], 10⟩)] ∧ c.db (b 3) = [(C16.key uB cX, ⟨uB, cX, [], 10⟩)] ∧
+    c.db (b 1) = [(C16.key uC cX, ⟨uC, cX, [], 5⟩)] ∧
+    c.sh (b 3) ⟨uA, cX, "z"⟩ = some [(2, 21)] ∧ c.sh (b 1) ⟨uA, cX, "zz"⟩ = some [(3, 30)] ∧
+    c.sh (b 1) ⟨uA, cX, "z"⟩ = none ∧ c.sh (b 2) ⟨uA, cX, "z"⟩ = none ∧ c.sh (b 2) ⟨uA, cX, "zz"⟩ = none ∧ c.sh (b 3) ⟨uA, cX, "zz"⟩ = none := by decide
 -- the reference map run on the same calls
-example : (refRun [] (exHist (b 1) (b 2) (b 3))).1 = [((uB, cX), ⟨10, []⟩), ((uA, cX), ⟨10, [(3, 30), (2, 21)]⟩)] := by decide
+example : (refRun [] (exHist (b 1) (b 2) (b 3))).1 = [((uB, cX), ⟨10, []⟩), ((uA, cX), ⟨10, [(3, 30), (2, 21)]⟩), ((uC, cX), ⟨5, []⟩)] := by decide
 example : (refRun [] (exHist (b 1) (b 2) (b 3))).2 =
-    [some .ok, some (.inserted []), some .ok, some (.failed [(9, .notFound)]), none, some (.failed []), none] := by decide
+    [some .ok, some (.inserted []), some .ok, some (.failed [(9, .notFound)]), none, some (.failed []), none, some .ok] := by decide
 -- the insert of the history satisfies InsertOK (against the empty collection it meets)
 example : InsertOK exCfg ⟨10, []⟩ ⟨uA, cX, [], 10⟩ [(3, 30), (1, 10), (2, 20)] exMk :=
   ⟨by decide, by decide, ⟨by decide, by decide⟩, exMk_inj, by intro i; simp⟩
@@ -197,7 +199,7 @@ theorem Cluster_tenant_isolation (h : Bytes → Nat) (cfg : Cfg) (servers : Name
   simp only [Bool.and_self] at h3
   exact ⟨h1, h2, h1.trans h3.symm, fun m a op col hab => ref_other m hab op col⟩
 
--- non-vacuity: in the history above B's request is the third one; B's answer and B's part do not depend on A's six requests
+-- non-vacuity: in the history above B's request is the third one; B's answer and B's part do not depend on the others' requests
 example : respTo uB (exHist (b 1) (b 2) (b 3)) (run exHash exCfg exServers Cluster.empty (exHist (b 1) (b 2) (b 3))).2 = [.ok] ∧
     (run exHash exCfg exServers Cluster.empty ((exHist (b 1) (b 2) (b 3)).filter fun q => decide (q.user = uB))).2 = [.ok] := by decide
 example : C16.slash ∉ uA ∧ C16.slash ∉ uB ∧ RecWF Cluster.empty :=
@@ -205,5 +207,120 @@ example : C16.slash ∉ uA ∧ C16.slash ∉ uB ∧ RecWF Cluster.empty :=
 -- A's answers with B's request removed are A's answers in the full history
 example : respTo uA (exHist (b 1) (b 2) (b 3)) (run exHash exCfg exServers Cluster.empty (exHist (b 1) (b 2) (b 3))).2 =
     (run exHash exCfg exServers Cluster.empty ((exHist (b 1) (b 2) (b 3)).filter fun q => decide (q.user = uA))).2 := by decide
+
+/-! ## 4. a change of the server list followed by a completed `Sync` round
+
+The cluster at rest, seen by C14: `syncView enc c` (per node and key the bytes of the record / of the
+shard file; `enc`: how records and shard contents are written, any injective encoding with non-empty
+shard files — `EncOK`; `stdEnc_ok` is one).  `syncCfg h S' …`: C14's configuration whose routing is
+C13's `owner` over the NEW list `S'`, every node started, truncating receiver.  `C14.round … order`:
+every node of `order` runs `Sync` once, no failure.  `SyncedTo enc c' st`: the cluster `c'`
+represents the C14 state `st` (same bytes per node and key; node databases as lists with distinct,
+well-formed keys). -/
+
+/-- **Cluster_sync_preserves.**  Let the cluster refine `m` under the old list `S` (`Inv`, `Rel` —
+e.g. after any history, Section 2).  The list changes to `S'`; every node that holds something runs
+`Sync` (`order`), the lists `nodes / rkeys / fkeys` cover what exists (`C14.Covers`), no client
+request runs meanwhile, no failure.  Then, by `C14_converges` with the routing instantiated by C13's
+`owner` for `S'`:
+* no `Sync` fails, and the result `c'` satisfies `Inv` and `Rel` for the routing of the NEW list with
+  the SAME reference map — so Sections 1–3 apply again with `S'`: every point of the reference map
+  is readable (update / delete / search / get answer as the reference map says) through any node
+  configured with the members of `S'`;
+* `c'` is `c` relocated (`MovedTo`): every record / shard directory sits at its new owner with the
+  content it had at its old owner, and nowhere else;
+* minimal disruption at the data level: whatever keeps its owner is, on every server, exactly as
+  before — nothing but the records / shards whose owner changed was moved. -/
+theorem Cluster_sync_preserves (h : Bytes → Nat) (S S' : List Name) (enc : Enc) (henc : EncOK enc)
+    (cs : Nat) (hcs : 0 < cs) (sum : C14.Content → Nat) (hsum : ∀ a b, sum a = sum b → a = b) (hsum0 : sum [] ≠ 0)
+    {c : Cluster} {m : Ref} (hI : Inv (routeOf h S) c) (hR : Rel (routeOf h S) m c)
+    (nodes : List Name) (rkeys fkeys : List SKey) (order : List Name)
+    (hcov : C14.Covers (syncCfg h S' (fun _ => true) cs sum) (roOf enc (routeOf h S) c) (foOf enc (routeOf h S) c) nodes rkeys fkeys)
+    (hall : ∀ n k, ((syncView enc c).recs n k).isSome ∨ ((syncView enc c).files n k).isSome → n ∈ order)
+    (c' : Cluster)
+    (hs : SyncedTo enc c' (C14.round (syncCfg h S' (fun _ => true) cs sum) nodes rkeys fkeys order (syncView enc c))) :
+    (∀ n ∈ order, (C14.round (syncCfg h S' (fun _ => true) cs sum) nodes rkeys fkeys order (syncView enc c)).failed n = false) ∧
+    Inv (routeOf h S') c' ∧ Rel (routeOf h S') m c' ∧ MovedTo (routeOf h S) (routeOf h S') c c' ∧
+    (∀ k : SKey, routeOf h S' (sidKey k.sid) = routeOf h S (sidKey k.sid) → ∀ n, c'.sh n k = c.sh n k) ∧
+    (∀ u col, C16.slash ∉ u → routeOf h S' u = routeOf h S u → ∀ n, dbGet (c'.db n) (C16.key u col) = dbGet (c.db n) (C16.key u col)) := by
+  have hconv := C14.C14_converges (syncCfg h S' (fun _ => true) cs sum) ⟨hsum, hsum0⟩ hcs rfl
+  obtain ⟨hp, hnf⟩ := hconv (roOf enc (routeOf h S) c) (foOf enc (routeOf h S) c) nodes rkeys fkeys order (syncView enc c) (syncView enc c)
+    (by
+      intro k v hk
+      simp only [foOf, viewFiles] at hk
+      cases hsh : c.sh (routeOf h S (sidKey k.sid)) k with
+      | none => rw [hsh] at hk; cases hk
+      | some P => rw [hsh] at hk; cases hk; exact henc.ptsNe P)
+    (fun _ _ => rfl) hcov (init_of_inv enc hI _ (fun _ => rfl)) .init (fun _ _ => rfl) hall
+  have hm := movedTo_of_placed (r := routeOf h S) (r' := routeOf h S') henc (fun _ => rfl) (fun _ => rfl) hp hs
+  obtain ⟨i1, i2⟩ := moved_refines hI hR hm
+  obtain ⟨m1, m2⟩ := moved_minimal hI hm
+  exact ⟨hnf, i1, i2, hm, m1, m2⟩
+
+/-- which owners change (C13_add): after a server `x` was ADDED, every shard directory of the
+synced cluster is on `x` or where it was; … -/
+theorem Cluster_sync_add (h : Bytes → Nat) {S S' : List Name} (x : Name) (p : S'.Perm (x :: S))
+    {c c' : Cluster} (hI : Inv (routeOf h S) c) (hm : MovedTo (routeOf h S) (routeOf h S') c c')
+    (hnt : ∀ n k P, c.sh n k = some P → C13.NoTies h (sidKey k.sid) S') :
+    ∀ n k P, c'.sh n k = some P → n = x ∨ c.sh n k = some P := by
+  intro n k P hc'
+  rw [hm.sh] at hc'
+  by_cases hn : n = routeOf h S' (sidKey k.sid)
+  · rw [if_pos hn] at hc'
+    unfold routeOf at hn
+    rcases C13.C13_add h (sidKey k.sid) x (hnt _ _ _ hc') p with e | e
+    · left; rw [hn, e]; rfl
+    · right
+      have : n = routeOf h S (sidKey k.sid) := by rw [hn, e]; rfl
+      rw [this]; exact hc'
+  · rw [if_neg hn] at hc'; cases hc'
+
+/-- … (C13_remove) after a server `x` was REMOVED, every shard directory that was not on `x` is where it was -/
+theorem Cluster_sync_remove (h : Bytes → Nat) {S : List Name} (x : Name)
+    {c c' : Cluster} (hI : Inv (routeOf h S) c) (hm : MovedTo (routeOf h S) (routeOf h (S.erase x)) c c')
+    (hnt : ∀ n k P, c.sh n k = some P → C13.NoTies h (sidKey k.sid) S) :
+    ∀ n k P, c.sh n k = some P → n ≠ x → c'.sh n k = some P := by
+  intro n k P hc hnx
+  have hn := (hI.shWF _ _ _ hc).1
+  rw [hm.sh, route_remove h x _ (hnt _ _ _ hc) (by rw [← hn]; exact hnx), if_pos hn, ← hn]
+  exact hc
+
+/-! ### non-vacuity: the cluster of Section 2 after server 3 was removed / a server 4 was added -/
+
+def exC : Cluster := (run exHash exCfg exServers Cluster.empty (exHist (b 1) (b 2) (b 3))).1
+def exNodes : List Name := [b 1, b 2, b 3, b 4]
+def exRKeys : List SKey := [⟨uA, cX, ""⟩, ⟨uB, cX, ""⟩, ⟨uC, cX, ""⟩]
+def exFKeys : List SKey := [⟨uA, cX, "z"⟩, ⟨uA, cX, "zz"⟩]
+/-- (a cheap checksum for EVALUATING rounds; the theorem's injective one would be astronomically large here) -/
+def exSum : C14.Content → Nat := fun c => c.sum + c.length + 1
+def exSyncCfg (S' : List Name) : C14.Cfg Name SKey := syncCfg exHash S' (fun _ => true) 2 exSum
+
+example : EncOK stdEnc := stdEnc_ok
+example : ∃ sum : C14.Content → Nat, (∀ a b, sum a = sum b → a = b) ∧ sum [] ≠ 0 :=
+  ⟨C14.wSum, fun a b e => C14.enc_inj a b (by simp only [C14.wSum] at e; omega), by simp [C14.wSum, C14.enc]⟩
+-- B's record and shard "z" are at server 3; with server 3 removed their owner is server 1, everything else keeps its owner
+example : (routeOf exHash [b 1, b 2] uB, routeOf exHash [b 1, b 2] (sidKey "z"), routeOf exHash [b 1, b 2] uA, routeOf exHash [b 1, b 2] uC,
+    routeOf exHash [b 1, b 2] (sidKey "zz")) = (b 1, b 1, b 2, b 1, b 1) := by decide
+-- the round of C14 on the view of the example cluster, and the relocation, at every server and key of the instance
+example : ∀ n ∈ exNodes, ∀ k ∈ exRKeys ++ exFKeys,
+    (C14.round (exSyncCfg [b 1, b 2]) exNodes exRKeys exFKeys [b 3, b 1, b 2] (syncView stdEnc exC)).recs n k =
+      viewRecs stdEnc (relocate (routeOf exHash [b 1, b 2]) exNodes exC) n k ∧
+    (C14.round (exSyncCfg [b 1, b 2]) exNodes exRKeys exFKeys [b 3, b 1, b 2] (syncView stdEnc exC)).files n k =
+      viewFiles stdEnc (relocate (routeOf exHash [b 1, b 2]) exNodes exC) n k := by decide
+-- B's record and shard "z" moved from server 3 to server 1; A's and C's records and shard "zz" are where they were
+example : let c' := relocate (routeOf exHash [b 1, b 2]) exNodes exC
+    dbGet (c'.db (b 1)) (C16.key uB cX) = some ⟨uB, cX, [], 10⟩ ∧ dbGet (c'.db (b 3)) (C16.key uB cX) = none ∧
+    dbGet (c'.db (b 2)) (C16.key uA cX) = some ⟨uA, cX, ["z", "zz"], 10⟩ ∧ dbGet (c'.db (b 1)) (C16.key uC cX) = some ⟨uC, cX, [], 5⟩ ∧
+    c'.sh (b 1) ⟨uA, cX, "z"⟩ = some [(2, 21)] ∧ c'.sh (b 3) ⟨uA, cX, "z"⟩ = none ∧ c'.sh (b 1) ⟨uA, cX, "zz"⟩ = some [(3, 30)] := by decide
+-- a fourth server added: it takes over C's record (and nothing else of this instance); C14's round agrees
+example : (routeOf exHash (exS ++ [b 4]) uA, routeOf exHash (exS ++ [b 4]) uB, routeOf exHash (exS ++ [b 4]) uC,
+    routeOf exHash (exS ++ [b 4]) (sidKey "z"), routeOf exHash (exS ++ [b 4]) (sidKey "zz")) = (b 2, b 3, b 4, b 3, b 1) := by decide
+set_option maxRecDepth 4000 in
+example : ∀ n ∈ exNodes, ∀ k ∈ exRKeys ++ exFKeys,
+    (C14.round (exSyncCfg (exS ++ [b 4])) exNodes exRKeys exFKeys [b 1, b 2, b 3, b 4] (syncView stdEnc exC)).recs n k =
+      viewRecs stdEnc (relocate (routeOf exHash (exS ++ [b 4])) exNodes exC) n k := by decide
+-- after the sync the collection reads the same through the new list (here: entered at server 4, listed last or first)
+example : (stepR exCfg (routeOf exHash [b 4, b 1, b 2, b 3]) (relocate (routeOf exHash (exS ++ [b 4])) exNodes exC) uA (.search cX 0 2 0)).2 =
+    .hits (some [⟨3, 30, []⟩, ⟨2, 21, []⟩]) := by decide
 
 end Sema.ClusterCompose
